@@ -554,6 +554,10 @@ func runOnce(c C18Case) verdict {
 		return infra("adaptation.New: %v", err)
 	}
 
+	if c.RegTimeoutMs != 0 {
+		adaptation.SetPluginRegistrationTimeout(time.Duration(c.RegTimeoutMs) * time.Millisecond)
+		defer adaptation.SetPluginRegistrationTimeout(regTimeout)
+	}
 	t0 := time.Now()
 	startErr := a.Start()
 	h.note("Start returned %v after %v", startErr, time.Since(t0).Round(time.Millisecond))
@@ -612,7 +616,7 @@ func runOnce(c C18Case) verdict {
 	if startErr == nil {
 		for _, p := range c.Plugins {
 			switch p.Behav {
-			case bSleep, bCfgFail, bSyncFail:
+			case bSleep, bCfgFail, bCfgHang, bSyncFail:
 				for _, r := range byFile[pluginDirName+"/"+p.File()] {
 					if v := notReaped("after Start (plugin failed to register/configure/synchronize)", r, p); v.out.Fail != "" {
 						return v
@@ -1147,6 +1151,36 @@ func judge(c C18Case, h *history, startErr error, reports []Report, lines []Line
 	if misbehaving > 0 {
 		cls("with_misbehaving")
 	}
+	// runtime-side waits spent on plugins that never register / never answer Configure and
+	// sort before a healthy plugin: beyond 5 s they exceed a stub's own registration window
+	{
+		reg := regTimeout
+		if c.RegTimeoutMs != 0 {
+			reg = time.Duration(c.RegTimeoutMs) * time.Millisecond
+		}
+		var wait time.Duration
+		var worst time.Duration
+		ps := append([]Plugin{}, c.Plugins...)
+		sort.SliceStable(ps, func(i, j int) bool { return ps[i].File() < ps[j].File() }) // nri launches in directory order
+		for _, p := range ps {
+			if _, ok := expectLaunch[pluginDirName+"/"+p.File()]; !ok {
+				continue
+			}
+			switch {
+			case p.Behav == bSleep:
+				wait += reg
+			case p.Behav == bCfgHang:
+				wait += reqTimeout
+			case p.startsUp() && wait > worst:
+				worst = wait
+			}
+		}
+		if worst >= 5500*time.Millisecond {
+			cls("healthy_behind_stacked_waits_over_5s")
+		} else if worst > 0 {
+			cls("healthy_behind_a_wait")
+		}
+	}
 	if dropsAtEvent > 0 {
 		cls("dropped_at_event")
 	}
@@ -1213,16 +1247,17 @@ var confirmedTimed int
 // runC18 executes the case; a failure that slowness could explain (a healthy plugin dropped
 // by one of nri's timeouts, a kill not visible within the bound) is confirmed by
 // re-executing the same case, alone, on a fresh tree: three times for the first such failure
-// of the process, once for later ones. It is a violation only if every execution fails;
+// of the process, once for later ones and for cases that take more than 4 s per execution. It is a violation only if every execution fails;
 // if one passes the case is counted as overloaded and not judged.
 func runC18(c C18Case) ev.Outcome {
+	t0 := time.Now()
 	v := runOnce(c)
 	if v.out.Fail == "" || !v.timeBound {
 		return v.out
 	}
 	reruns := 3
-	if confirmedTimed > 0 {
-		reruns = 1
+	if confirmedTimed > 0 || time.Since(t0) > 4*time.Second {
+		reruns = 1 // (a case with stacked waits takes 6 s and more per execution)
 	}
 	for i := 0; i < reruns; i++ {
 		again := runOnce(c)
@@ -1254,7 +1289,7 @@ func TestExh_C18(t *testing.T) {
 	defer r.Flush()
 	ops := []string{"RunPodSandbox", "CreateContainer", "StartContainer", "StopContainer"}
 	var cases []C18Case
-	for i, b := range []string{bOK, bExit, bSleep, bCloseFD, bCfgFail, bSyncFail, bDie, bDieAfter, bLinger, bHang, bGarbage} {
+	for i, b := range []string{bOK, bExit, bSleep, bCloseFD, bCfgFail, bCfgHang, bSyncFail, bDie, bDieAfter, bLinger, bHang, bGarbage} {
 		x := Plugin{Idx: "20", Stem: "x", Behav: b, Mode: 0o755}
 		switch b {
 		case bExit:
@@ -1310,6 +1345,23 @@ func TestExh_C18(t *testing.T) {
 		Listen:  true,
 		Exts:    []Ext{{Idx: "10", Name: "e0", Join: 0, Leave: 2}, {Idx: "20", Name: "e1", Join: 1, Leave: len(ops) + 1}, {Idx: "05", Name: "e2", Join: 3, Leave: 4}},
 	})
+	// stacked waits: a healthy plugin behind plugins that never register / never answer
+	// Configure, whose runtime-side waits add up to ≈ 6 s — more than the 5 s a stub-based
+	// plugin allows for its own registration. Each costs ≈ 6 s: one in quick, three in thorough.
+	stacks := [][]string{{bSleep, bSleep, bSleep}}
+	if ev.Thorough() {
+		stacks = append(stacks, []string{bSleep, bSleep, bCfgHang, bCfgHang}, []string{bCfgHang, bSleep, bCfgHang, bSleep})
+	}
+	for _, shape := range stacks {
+		c := C18Case{Ops: ops[:3], RegTimeoutMs: 2000, Held: []string{"unix"}}
+		for j, b := range shape {
+			c.Plugins = append(c.Plugins, Plugin{Idx: fmt.Sprintf("%d0", j+1), Stem: "s", Behav: b, Mode: 0o755})
+		}
+		okp := Plugin{Idx: "60", Stem: "late", Behav: bOK, Mode: 0o755}
+		c.Plugins = append(c.Plugins, okp)
+		c.Confs = []Conf{{File: okp.File() + ".conf", Content: "for: the plugin behind the stack\n"}, {File: okp.Base() + ".conf", Content: "not this one\n"}}
+		cases = append(cases, c)
+	}
 	for _, c := range cases {
 		raw := ev.Snapshot(c)
 		r.Journal(raw)
